@@ -443,7 +443,13 @@ def judge_printed(ctx, repos, data, case):
     """what the user reads: the printed report must show, for every component build, exactly the parent builds
     recorded in the report data"""
     try:
-        text = str(repos.make_report(TEXT).ch_text(no_color=True))
+        report = repos.make_report(TEXT)
+        text = str(report.ch_text(no_color=True))
+        # (the report object is kept and shown again - on the console first, in a mail later: the same text)
+        again = str(report.ch_text(no_color=True)) if len(text) % 2 else str(report)
+        if len(text) % 2 and again != text:
+            ctx.violation("report-printed-again-differs", {"first": text[:200], "second": again[:200]}, case)
+            return
     except Exception as err:
         ctx.violation("report-raises", {"type": type(err).__name__, "msg": str(err)[:200], "printed": True}, case)
         return
